@@ -1,21 +1,24 @@
-(** What constructing blocks writes into shared constraint objects (property C18).
+(** What constructing blocks does to shared constraint objects (property C18).
     Executable definitions only; proofs are in Hist/ReuseProofs.v.
 
-    Anchors (sweetpea/_internal): cross_block.py [_create]
-    ([ct.init_within_block(within_block)] for [self.constraints] and for
-    [self.orig_constraints]), [Repeat.__init__] / [Merge.__init__]
-    (re-use of [orig_constraints]), [Nest.__init__] ([copy.copy(ct)] +
-    [sustain_within_block(inner_len)]); constraint.py [_KInARow.init_within_block]
-    and [Pin.init_within_block] (set-if-None), [sustain_within_block] of
-    [_KInARow] / [ExactlyK] (multiplies [k]) / [Pin] / [MinimumTrials]
-    (multiplies [trials]), [desugar]; block.py [__validate]
-    ([c.max_trials_required = trials_per_sample() * c.k]) and [BlockGeometry.sustain].
+    Anchors (sweetpea/_internal, after /repo commit 88b3d0f): cross_block.py [_create]
+    ([constraints = [copy.copy(ct) for ct in constraints]]: every block works on private
+    shallow copies of the constraint objects it is given; [self.orig_constraints] are the
+    copies; [ct.init_within_block(within_block)] for [self.constraints] and for
+    [self.orig_constraints] touches the copies only), [Repeat.__init__] / [Merge.__init__]
+    (hand the inner blocks' [orig_constraints], i.e. their initialised copies, to [_create],
+    which copies them again), [Nest.__init__] ([copy.copy(ct)] + [sustain_within_block(inner_len)]
+    for the outer block's [orig_constraints]); constraint.py [_KInARow.init_within_block] and
+    [Pin.init_within_block] (set-if-None), [sustain_within_block] of [_KInARow] / [ExactlyK]
+    (multiplies [k]) / [Pin] / [MinimumTrials] (multiplies [trials]), [desugar]; block.py
+    [__validate] ([c.max_trials_required = trials_per_sample() * c.k]) and [BlockGeometry.sustain].
 
-    A store maps object identities to the mutable fields the code has.  A build
-    takes the geometry [get_geometry(0)] of the block under construction as data
-    (it is a function of the design, modelled in Design/Layout.v) and says which
-    objects it writes and which geometry every constraint of the new block ends
-    up using. *)
+    A store maps object identities to the mutable fields the code has.  A build takes the
+    geometry [get_geometry(0)] of the block under construction as data (it is a function of
+    the design, modelled in Design/Layout.v), creates the copies as new store entries, writes
+    only those, and says which geometry, [k] and [trials] every constraint of the new block
+    ends up using.  (Before commit 88b3d0f [_create] did not copy: the set-if-None write went
+    into the user's objects, which kept the geometry of the first block they met.) *)
 From Coq Require Import ZArith List Bool Arith String.
 Import ListNotations.
 Open Scope Z_scope.
@@ -57,8 +60,10 @@ Definition set_mtr (o : cobj) (m : option Z) : cobj :=
 
 (** The attribute writes on objects reachable from the constructors' arguments this model
     declares (class family, attribute); compared with the write-set computed from the source by
-    harness/writeset.py.  [within_block] and [max_trials_required] are written on the user's
-    objects; [k] and [trials] only on the copies [Nest] makes (new store entries). *)
+    harness/writeset.py.  All four are written only on objects the construction itself creates
+    (the private copies of [_create] and the copies [Nest] sustains): new store entries; the
+    static analyser cannot tell a copy from its original, the theorems and the dynamic
+    comparison of the user's objects after every construction do. *)
 Definition declared_writes : list (string * string) :=
   [("Constraint", "within_block"); ("Constraint", "max_trials_required");
    ("Constraint", "k"); ("Constraint", "trials")]%string.
@@ -153,11 +158,18 @@ Fixpoint write_mtr (f : nat -> cobj) (all : list nat) (copied : list bool) (t : 
     write_mtr f' r (tl copied) t
   end.
 
+(** [constraints = [copy.copy(ct) for ct in constraints]] at the top of [_create]: new objects *)
+Fixpoint copy_all (f : nat -> cobj) (nx : nat) (ids : list nat) : (nat -> cobj) * nat * list nat :=
+  match ids with
+  | [] => (f, nx, [])
+  | i :: r => match copy_all (upd f nx (f i)) (S nx) r with (f', nx', l) => (f', nx', nx :: l) end
+  end.
+
 (** the two [init_within_block] loops of [_create] *)
 Definition init_all (f : nat -> cobj) (all : list nat) (g : geom) : nat -> cobj :=
   fold_left (fun f i => upd f i (init_within_block (f i) g)) all f.
 
-(** the combined constraint list handed to [_create] (and stored as [orig_constraints]) *)
+(** the combined constraint list handed to [_create] *)
 Definition gather (s : state) (d : desc) : option ((nat -> cobj) * nat * list nat) :=
   match d_kind d with
   | DLeaf => Some (objs s, next s, d_cs d)
@@ -179,10 +191,13 @@ Definition gather (s : state) (d : desc) : option ((nat -> cobj) * nat * list na
 Definition build (s : state) (d : desc) : state * option summary :=
   match gather s d with
   | None => ({| objs := objs s; next := next s; env := env s ++ [None] |}, None)
-  | Some (f, nx, all) =>
-    let f1 := write_mtr f all (d_copied d) (g_trials (d_geom d)) in
-    let f2 := init_all f1 all (d_geom d) in
-    ({| objs := f2; next := nx; env := env s ++ [Some all] |}, Some (map (fun i => view (f2 i)) all))
+  | Some (f, nx, given) =>
+    match copy_all f nx given with
+    | (f0, nx0, all) =>      (* [all]: the private copies = [orig_constraints] of the new block *)
+      let f1 := write_mtr f0 all (d_copied d) (g_trials (d_geom d)) in
+      let f2 := init_all f1 all (d_geom d) in
+      ({| objs := f2; next := nx0; env := env s ++ [Some all] |}, Some (map (fun i => view (f2 i)) all))
+    end
   end.
 
 Fixpoint run (s : state) (ds : list desc) : state * list (option summary) :=
@@ -190,6 +205,10 @@ Fixpoint run (s : state) (ds : list desc) : state * list (option summary) :=
   | [] => (s, [])
   | d :: r => let (s1, o) := build s d in let (s2, os) := run s1 r in (s2, o :: os)
   end.
+
+(** the full fields of the new block's [orig_constraints] (for the correspondence run) *)
+Definition last_entries (s : state) : list cobj :=
+  match last (env s) None with Some l => map (objs s) l | None => [] end.
 
 (** fresh user objects: nothing written yet *)
 Definition fresh (o : cobj) : cobj :=
